@@ -1065,7 +1065,7 @@ func TestVerifSel(t *testing.T) {
 	}
 
 	total := 0
-	perCfg := 12
+	perCfg := 6
 	capsets := [][]int{{0}, {1}, {0, 0}, {0, 1}}
 	if tier == "thorough" {
 		perCfg = 400
